@@ -216,6 +216,16 @@ void UncompressedFile::write(const std::shared_ptr<LogContainer> & logContainer)
         (m_tellp < m_demand);
     });
 
+    /* close the log container that is open at the put position, so that the new one does not overlap it */
+    std::shared_ptr<LogContainer> openLogContainer = logContainerContaining(m_tellp);
+    if (openLogContainer) {
+        std::streamoff offset = m_tellp - openLogContainer->filePosition;
+        if (offset > 0) {
+            openLogContainer->uncompressedFile.resize(offset);
+            openLogContainer->uncompressedFileSize = offset;
+        }
+    }
+
     /* append logContainer */
     m_data.push_back(logContainer);
     logContainer->filePosition = m_tellp;
